@@ -72,6 +72,9 @@ PREFIXES = [
     # the last two entries, which are released and handed out again before the tree runs
     ["fill s1", "fill s2", "reg s1 f1", "reg s1 f2", "reg s2 f2", "reg s2 f1", "unreg s1 f2", "reg s1 f2", "unreg s1 f1",
      "reg s1 f1", "unreg s2 f1", "reg s2 f1", "unreg s2 f2", "reg s2 f2"],
+    # the callbacks of the tree hold the FIRST entries, the fillers the rest; one more registration is refused
+    # (no free entry point) and must leave every existing entry as it was
+    ["reg s1 f1", "reg s1 f2", "reg s2 f2", "reg s2 f1", "fill s1", "fill s2", "reg s1 f3", "reg s2 f3"],
 ]
 
 
